@@ -153,3 +153,19 @@ reg("C03",
     "not to wrap.",
     "TLA+ spec Sgr.tla (independent terminal automaton) + MC_Sgr (encoder design vs automaton, exhaustive over a pen domain) + TLC validation of the tokenised output of real consoles (Trace_Sgr)",
     "DESIGN.md §4 C03")
+
+reg("C15",
+    "Record.tla formalises the five clauses on token streams (visible text = everything except escape sequences and C0 controls; an ANSI pen decoder in TLA+) "
+    "and models console.py's thread buffer, capture marks, record, _render_buffer, Segment.simplify/filter_control and HTML escaping, one operator per public call. "
+    "TLC (M1) checks every history of 3 (quick) / 4 (thorough) calls over the full call/chunk alphabet and 5 / 6 calls over a core alphabet, colour system x terminal; "
+    "the repaired design satisfies all clauses and each of 7 shipped or mutated design choices is exhibited as a defect of the right clause. Every 2-call history, "
+    "400 / 6 000 TLC-simulated 6 / 9-call histories and 1 200 / 20 000 seeded random histories (<= 30 calls; strings with < > & entities quotes, styled Text, links, wide "
+    "characters, bare newlines, Control, spans, Panel, Table, print options, log, rule, line, bell, clear, show_cursor, control, captures nested <= 3, export/save text and HTML x "
+    "clear x styles/inline; 4 colour systems x terminal x 5 widths) run on a real recording Console and on an identical console that never captures; every write and every "
+    "capture/export result is tokenised and TLC replays the history through the property part, naming the failing clause (trace validation). Bounded; conformance, not proof.",
+    "Trusted: engine/ansilex.py (lexical ANSI tokeniser; html.parser for tag removal + entity decoding, <pre> only; chunk labels by literal match), the twin console as reference for "
+    "'as it would have been written'. Printed text has no C0 controls but newline; markup/emoji/highlight off. Clauses 1-3 strict only on capture-free histories; after sequential "
+    "captures either 'recorded' or 'not recorded' is accepted (drift); unjudged between a nested capture / clearing export inside a capture and the next clearing export. Colours compared "
+    "modulo down-conversion; HTML styles only inline-vs-class (drift). Control codes inside the styled export are tolerated (decoded away).",
+    "TLA+ spec Record.tla; TLC exhaustive model check with defect switches + TLC-generated (exhaustive and -simulate) histories replayed on the real Console + TLC trace validation of tokenised file / capture / export streams",
+    "DESIGN.md §4 C15")
